@@ -35,7 +35,7 @@ LEVEL_TEXT = (
 LEVEL_NOTE = "Trusted: normalisation of return values (ids mapped to creation indices; unordered collections compared as sets; pagination compared as lists), the reference models, simkit clock (both backends see the same instant for the same operation)."
 MINIMIZE = None
 RULE = (
-    "one run = 60-300 operations over <= 8 invocations of 2 tasks, 3 runners, argument values from a 2x2 domain; non-trivial = the run "
+    "one run = 60-300 operations over <= 8 invocations of 2 tasks, 3 runners, argument values from a 2x2 domain (task 0 declares both as key arguments, so they are indexed); non-trivial = the run "
     "contained operations of at least 4 of the 5 components and at least one purge or auto-purge; distinct = hash of the op sequence."
 )
 ASSUMPTIONS = [
